@@ -101,3 +101,52 @@ package sourceaddrs
 //@ theorem C11.compose.local (ra String, rb String, rc String):
 //@     localOK(ra) && localOK(rb) && localOK(rc)
 //@     ==> localFix(Join(localFix(Join(ra, rb)), rc)) == localFix(Join(ra, localFix(Join(rb, rc))))
+
+//@ func splitSubPath -> (pkg, sub)
+//@   pure
+//@   sweep
+//@   ensures C19,C06.split.nosub: !spHasSub(src) ==> pkg == src && sub == ""
+//@   ensures-bounded splitBounded C19,C06.split.idem: !spHasSub(pkg)
+
+//@ func ParseSource -> (r, err)
+//@   sweep
+
+//@ func ParseFinalSource -> (r, err)
+//@   sweep
+
+//@ func ParseRemoteSource -> (r, err)
+//@   sweep
+//@   assume pat.remote: numSubexp(remoteSourceTypePattern) == 2
+
+//@ func ParseRegistrySource -> (r, err)
+//@   sweep
+
+//@ func ParseFinalRegistrySource -> (r, err)
+//@   sweep
+//@   assume pat.final: numSubexp(finalRegistrySourcePattern) == 4
+
+//@ func looksLikeFinalRegistrySource -> (r)
+//@   sweep
+//@   assume pat.final: numSubexp(finalRegistrySourcePattern) == 4
+
+//@ func makeRemoteSource -> (r, err)
+//@   sweep
+//@   requires C19.u: u != nil
+
+//@ func MakeRemoteSource -> (r, err)
+//@   sweep
+//@   requires pre.u: u != nil
+
+//@ func (gitSourceType).PrepareURL -> (err)
+//@   sweep
+//@   requires pre.u: u != nil
+
+//@ func (httpSourceType).PrepareURL -> (err)
+//@   sweep
+//@   requires pre.u: u != nil
+
+//@ func init$1 -> (normed, ok, err)
+//@   sweep
+
+//@ func init$2 -> (normed, ok, err)
+//@   sweep
